@@ -47,7 +47,10 @@ LINES = [b"keep;", b"OK", b'OK "done"', b'NO "x"', b"NO", b"BYE", b"{5}", b"{5+}
 NAMES = [b"main", b"x y", b'q"q', b"{5}", b"{5+}", b"OK", b"NO", b"BYE", b"ACTIVE",
          b"x ACTIVE", b'"a" ACTIVE', b"\xc3\xa9t\xc3\xa9", b"a\\b", b"a\\", b'"', b'""',
          b"vac\xc3\xa0tion", b"script.sieve", b"l'apostrophe", b"(paren)", b"a" * 100,
-         "\ufeffbom".encode(), "nb\u00a0sp".encode(), b" lead and trail ", "z\u200bw".encode()]
+         "\ufeffbom".encode(), "nb\u00a0sp".encode(), b" lead and trail ", "z\u200bw".encode(),
+         # many characters that need escaping; a quote first and none after it
+         b'q"' * 10, b"\\" * 20, b'"\\' * 12 + b"x", b'"' + b"a" * 40, b'"' + b"abc def " * 6,
+         b'x"' + b"y" * 35]
 
 
 def plan(tier, seed):
